@@ -375,6 +375,13 @@ func (e *Env) eval(t *Term) Val {
 		return Val{K: TBool, B: d == 0}
 	case "eq":
 		x, y := a(0), a(1)
+		// comparison of an unknown reference with nil: both outcomes must occur
+		if t.Args[0].IsNil() && t.Args[1].K != KConst {
+			return Val{K: TBool, B: h64("nil?", valKey(y))&1 == 1}
+		}
+		if t.Args[1].IsNil() && t.Args[0].K != KConst {
+			return Val{K: TBool, B: h64("nil?", valKey(x))&1 == 1}
+		}
 		return Val{K: TBool, B: valKey(x) == valKey(y)}
 	case "bxor":
 		return Val{K: TBool, B: a(0).B != a(1).B}
@@ -529,6 +536,8 @@ func (e *Env) evalCall(t *Term) Val {
 	case "math.Sincos":
 		s, c := math.Sincos(f(0))
 		return Val{K: TTuple, T: []Val{F(s), F(c)}}
+	case "fmt.Errorf", "errors.New":
+		return Val{K: TRef, R: 0xE44}
 	case "math.Erfc", "math.Erf", "math.Exp", "math.Gamma":
 		return F(surrogate(name, f(0)))
 	case "math.Lgamma":
